@@ -244,9 +244,10 @@ def cyclepoints(rep, model):
                     'peaks': cols[sc['c']] if pe == T.TRUE else NONE,
                     'troughs': T.call('unique', (T.call('append', (cols[sc['l']], cols[sc['n']])),)) if pe == T.TRUE else NONE,
                     'rises': cols['sample_zerox_rise'] if pz == T.TRUE else NONE, 'decays': cols['sample_zerox_decay'] if pz == T.TRUE else NONE}
-            if len(ev) == 1 and all(ev[0]['bound'].get(k) == v for k, v in want.items()) and not ev[0]['problems']:
+            got_b = {k: T.strip_nd(v) for k, v in ev[0]['bound'].items()} if len(ev) == 1 else {}
+            if len(ev) == 1 and all(got_b.get(k) == v for k, v in want.items()) and not ev[0]['problems']:
                 rep.ok('XY-SAME-INDEX', 'df:' + inst, gsite, found='centre / unique(last side + next side) / rise / decay midpoints of the table\'s centring')
             else:
-                b = ev[0]['bound'] if ev else {}
+                b = got_b
                 rep.violation('XY-SAME-INDEX', 'df:' + inst, gsite, expected={k: T.brief(v, 60) for k, v in want.items()},
                               found={k: T.brief(b.get(k), 60) if b.get(k) else None for k in want if b.get(k) != want[k]} or 'no call')
